@@ -416,16 +416,31 @@ def run(ctx):
             for v in ("terms", "filter", "mask", "collapse", "noopt"):
                 tasks.append((seed, lay, "bm25", "two_red", v, 1, 0))
     else:
-        for lay in lays:
+        # sized with VERIF_PROGRESS=1 (worker seconds per task kind: one 3,
+        # two_red 20, boost 60, special 75, two/4 185, three 440, nested 590)
+        # to about half an hour on 16 cores
+        qlays = layouts("quick", seed)                     # 9: block size x segment composition
+        blays = [[l for l in qlays if l["blocklimit"] == bl][(seed + bl) % 3] for bl in (1, 2, 3)]
+        for lay in lays:                                   # 90 index variants
+            for w in WEIGHTINGS:
+                tasks.append((seed, lay, w, "one", "plain", 1, 0))
+        for lay in qlays:
             for sl in range(4):
                 tasks.append((seed, lay, "bm25", "two", "plain", 4, sl))
             for w in WEIGHTINGS:
-                for fam in ("one", "two_red", "boost", "special", "three"):
-                    tasks.append((seed, lay, w, fam, "plain", 1, 0))
-                tasks.append((seed, lay, w, "nested", "plain", 1, 0))
+                tasks.append((seed, lay, w, "two_red", "plain", 1, 0))
+        for lay in blays:
+            for w in WEIGHTINGS:
+                tasks.append((seed, lay, w, "boost", "plain", 1, 0))
+                tasks.append((seed, lay, w, "special", "plain", 1, 0))
+            tasks.append((seed, lay, "bm25", "three", "plain", 1, 0))
+            tasks.append((seed, lay, "bm25", "nested", "plain", 1, 0))
             for v in ("terms", "filter", "mask", "collapse", "noopt"):
                 for fam in ("two_red", "special", "boost"):
                     tasks.append((seed, lay, "bm25", fam, v, 1, 0))
+        for w in ("tfidf", "freq"):
+            tasks.append((seed, blays[0], w, "three", "plain", 1, 0))
+            tasks.append((seed, blays[1], w, "nested", "plain", 1, 0))
     # positional queries (Phrase and the span family): every assignment of 8
     # token sequences to 3 (thorough: 4) documents
     if ctx.tier == "quick":
@@ -433,7 +448,7 @@ def run(ctx):
             tasks.append(("span", seed, 4, 16, sl, ("bm25", "freq")))
     else:
         for sl in range(128):
-            tasks.append(("span", seed, 5, 128, sl, ("bm25", "tfidf", "freq")))
+            tasks.append(("span", seed, 5, 128, sl, ("bm25", "freq")))
     ctx.extra["index_variants"] = len(lays)
     ctx.extra["weightings"] = WEIGHTINGS
     ctx.rule = ("for each (index variant, weighting, query tree, variant): search(limit=k), k=1..5, "
